@@ -684,6 +684,15 @@ impl CanonicalizeContext {
 			if children.is_empty() {
 				return Ok( () );
 			} else {
+				// the presentation form inside an 'annotation-xml' has to be one element (get_presentation_element() relies on it)
+				for child in &children {
+					if let Some(child) = child.element() {
+						if child.attribute_value("encoding") == Some("MathML-Presentation") &&
+						   (child.children().len() != 1 || child.children()[0].element().is_none()) {
+							bail!("'{}' with encoding 'MathML-Presentation' should have one element as its child:\n{}", name(&child), mml_to_string(&mathml));
+						}
+					}
+				}
 				let (i_presentation, presentation_element) = get_presentation_element(mathml);
 				// make sure only 'annotation' and 'annotation-xml' elements are children of the non-presentation element
 				for (i, child) in children.iter().enumerate() {
